@@ -568,3 +568,61 @@ Proof.
     + apply IH in H as (k & Lt & ->). exists (S k). split; [cbn [length]; lia|].
       cbn [firstn map rev]. cbn [firstn] in *. rewrite <- !app_assoc. reflexivity.
 Qed.
+
+(* ------------------------------------------------------------------ packets with payloads *)
+(* a received packet = header byte and payload; the dispatcher looks at the header only *)
+Definition packet := (Z * list Z)%type.
+
+Definition dispatch_pk (beh : behaviour) (n : Z) (pk : packet) (s : st) (log : list entry) : st * list entry * bool :=
+  dispatch beh n (fst pk) s log.
+
+Definition run_pk (beh : behaviour) (n : Z) (pks : list packet) (s : st) (log : list entry) : st * list entry * bool :=
+  run beh n (map fst pks) s log.
+
+Lemma dispatch_payload_independent beh n h p p' s log :
+  dispatch_pk beh n (h, p) s log = dispatch_pk beh n (h, p') s log.
+Proof. reflexivity. Qed.
+
+Lemma run_payload_independent beh n pks pks' s log :
+  map fst pks = map fst pks' -> run_pk beh n pks s log = run_pk beh n pks' s log.
+Proof. unfold run_pk. intros ->. reflexivity. Qed.
+
+(* every header byte, every payload (the empty one included): each registration untouched by the all-packet
+   callbacks is called as often as it is registered if it matches, never otherwise *)
+Theorem every_header_every_payload beh n h payload s log s' log' r :
+  0 <= h < 256 ->
+  untouched_by_all beh n s log r ->
+  dispatch_pk beh n (h, payload) s log = (s', log', true) ->
+  exists ports,
+    log' = port_entries n ports ++ all_entries n (alls s) ++ log /\
+    count_occ reg_eq_dec ports r =
+      if (r_port r =? Z.land (h / 16) (r_pmask r)) && (r_chan r =? Z.land (h mod 4) (r_cmask r))
+      then count_occ reg_eq_dec (cbs s) r else 0%nat.
+Proof.
+  intros H U D. unfold dispatch_pk in D. cbn [fst] in D.
+  destruct (dispatch_exactly_once beh n h s log s' log' r U D) as (ports & L & C).
+  exists ports. split; [exact L|]. rewrite C. destruct (hdr_fields h H) as (P & Ch & _ & _).
+  unfold matches. rewrite P, Ch. reflexivity.
+Qed.
+
+(* the registration kinds of the API against all 256 headers: the port callback of the header's port, the exact
+   header callback (default masks), the wildcard, channel-only and port-only masks all match *)
+Definition kinds_match (h c : Z) : bool :=
+  matches h (port_reg (h / 16) c) && matches h (mkReg (h / 16) 255 (h mod 4) 255 c) &&
+  matches h (mkReg 0 0 0 0 c) && matches h (mkReg 0 0 (h mod 4) 3 c) && matches h (mkReg (h / 16) 15 0 0 c) &&
+  negb (matches h (port_reg ((h / 16 + 1) mod 16) c)) && negb (matches h (mkReg (h / 16) 255 ((h mod 4 + 1) mod 4) 255 c)).
+
+Lemma kinds_match_all c : forallb (fun h => kinds_match h c) hdrs = true.
+Proof. vm_compute. reflexivity. Qed.
+
+Lemma kinds_match_header h c : 0 <= h < 256 -> kinds_match h c = true.
+Proof. intros H. pose proof (kinds_match_all c) as A. rewrite forallb_forall in A. exact (A h (in_hdrs h H)). Qed.
+
+(* ---- a payload-dependent filter (seeded change C07-f: "null packets carry nothing for the port callbacks"):
+   skip the port phase when the header attribute is 0xFF and the payload is empty *)
+Definition dispatch_nullskip (beh : behaviour) (n : Z) (pk : packet) (s : st) (log : list entry) : st * list entry * bool :=
+  let '(s1, log1, alive) := call_all beh n (alls s) s log in
+  if alive then
+    if (Z.lor (fst pk) 12 =? 255) && (match snd pk with [] => true | _ => false end) then (s1, log1, true)
+    else let (s2, log2) := call_ports beh n (filter (matches (fst pk)) (cbs s1)) s1 log1 in (s2, log2, true)
+  else (s1, log1, false).
